@@ -131,11 +131,9 @@ def sortStrings (asc signed : Bool) (toks : List String) : String :=
 (`key, value, live`), the capacity (a removed slot keeps its place until the next growth;
 `HArray::Get` grows when `Size() == Capacity()`, and growing drops removed slots). -/
 
-structure Slot where
-  key : List Nat
-  val : Nat
-  live : Bool
-  deriving BEq
+structure HA where
+  slots : Array Slot3 := #[]
+  cap : Nat := 0
 
 def alignSize (n : Nat) : Nat := Id.run do
   let mut s := 1
@@ -143,27 +141,23 @@ def alignSize (n : Nat) : Nat := Id.run do
     if s < n then s := s * 2
   return s
 
-structure HA where
-  slots : Array Slot := #[]
-  cap : Nat := 0
-
 def HA.insert (h : HA) (key : List Nat) (val : Nat) : HA :=
   let h := if h.slots.size == h.cap then
       let n := ((if h.cap == 0 then 1 else 0) + h.cap) * 2
-      { slots := h.slots.filter (·.live), cap := alignSize (n + n % 2) }
+      { slots := h.slots.filter (·.2.2), cap := alignSize (n + n % 2) }
     else h
-  match h.slots.findIdx? (fun s => s.live && s.key == key) with
-  | some i => { h with slots := h.slots.modify i (fun s => { s with val := val }) }
-  | none => { h with slots := h.slots.push { key, val, live := true } }
+  match h.slots.findIdx? (fun s => s.2.2 && s.1 == key) with
+  | some i => { h with slots := h.slots.modify i (fun s => (s.1, val, s.2.2)) }
+  | none => { h with slots := h.slots.push (key, val, true) }
 
 def HA.remove (h : HA) (key : List Nat) : HA :=
-  match h.slots.findIdx? (fun s => s.live && s.key == key) with
-  | some i => { h with slots := h.slots.modify i (fun _ => { key := [], val := 0, live := false }) }
+  match h.slots.findIdx? (fun s => s.2.2 && s.1 == key) with
+  | some i => { h with slots := h.slots.modify i (fun _ => ([], 0, false)) }
   | none => h
 
-def showSlot (s : Slot) : String := if s.live then showStr s.key ++ "=" ++ toString s.val else "~"
+def showSlot (s : Slot3) : String := if s.2.2 then showStr s.1 ++ "=" ++ toString s.2.1 else "~"
 
-def showSlots (a : Array Slot) : String := showList (a.toList.map showSlot)
+def showSlots (a : Array Slot3) : String := showList (a.toList.map showSlot)
 
 def applyOp (h : HA) (t : String) : Option HA :=
   if t.startsWith "+" then
@@ -180,10 +174,10 @@ def sortObject (asc : Bool) (ops : List String) : String :=
   match ops.foldlM applyOp ({} : HA) with
   | none => "bad-op"
   | some h =>
-    match arraySort (fun (x y : Slot) => Str.lt x.key y.key) (fun x y => Str.gt x.key y.key) asc h.slots with
+    match arraySort (fun (x y : Slot3) => Str.lt x.1 y.1) (fun x y => Str.gt x.1 y.1) asc h.slots with
     | some out => showSlots h.slots ++ " " ++ showSlots out ++ " " ++
-        showBits (pairsTable (fun (x y : Slot) => if asc then Str.lt x.key y.key else Str.gt x.key y.key) out.toList) ++ " " ++
-        showBits (chainTable (fun (x y : Slot) => if asc then Str.le x.key y.key else Str.ge x.key y.key) out.toList) ++
+        showBits (pairsTable (fun (x y : Slot3) => if asc then Str.lt x.1 y.1 else Str.gt x.1 y.1) out.toList) ++ " " ++
+        showBits (chainTable (fun (x y : Slot3) => if asc then Str.le x.1 y.1 else Str.ge x.1 y.1) out.toList) ++
         " lookups-ok"
     | none => "model-fault"
 
